@@ -147,6 +147,16 @@ def same_id_two_owners(s):
     buy(s, "usr0", 1, 5)
     buy(s, "usr0", 2, 6)
     buy(s, "usr0", 3, 7)
+    # a traded bucket with a pending fee sits unwithdrawn with the seller; a third account asks for its id through the coin
+    # path (it holds no bucket of that id itself) and tries to pay the seller's next listing with it
+    bucket(s, "usr0", 8, [["ujunox", 1000]])
+    listing(s, "usr1", 4, [["uatom", 14]], G(n=[["ujunox", 1000]]))
+    buy(s, "usr0", 4, 8)                                                                           # bucket 8 -> usr1, fee 5 pending
+    bucket(s, "usr2", 8, [["ujunox", 2000]])                                                       # refused: id 8 is used
+    cw20_send(s, "usr2", CW20A, 3, {"k": "create_bucket_cw20", "id": 8})                          # refused
+    listing(s, "usr1", 5, [["uatom", 15]], G(n=[["ujunox", 2000]]))
+    buy(s, "usr2", 5, 8)                                                                           # refused: usr2 has no bucket 8
+    with_faults(s, E("usr1", {"k": "remove_bucket", "id": 8}))
     # listings: same id asked by a second account through each path while the first is live
     listing(s, "usr2", 9, [["uatom", 1]], G(n=[["uosmo", 2]]), finalize=False)
     s.do({"t": "nft_send", "user": "usr3", "coll": COLL1, "token_id": "4", "inner": {"k": "create_listing_cw721", "id": 9, "ask": G(n=[["uosmo", 2]]), "wl": None}}, "valid")
@@ -348,6 +358,7 @@ def expiry_edges(s):
     s.do(E("usr0", {"k": "delete_listing", "id": 1}), "valid")           # still refused
     buy(s, "usr1", 1, 1)                                                  # ok
     adv(s, 0, 1)                                                          # exactly at expiry (unconstrained)
+    s.query_here()                                                        # ... but whatever the market query lists now must be purchasable now (C16)
     buy(s, "usr1", 2, 2)
     adv(s, 0, 1)                                                          # 1 ns after
     buy(s, "usr1", 3, 3)                                                  # refused
@@ -485,6 +496,29 @@ def fee_cycle_week(s):
     s.do(E("usr4", {"k": "fee_cycle"}), "valid")     # and not again
     for u, k, i in (("usr0", "remove_bucket", 1), ("usr1", "withdraw_purchased", 1), ("usr2", "remove_bucket", 2), ("usr3", "withdraw_purchased", 2)):
         s.do(E(u, {"k": k, "id": i}), "valid")
+
+
+def fee_cycle_subsecond_cfg():
+    return world.default_cfg(t0=1_700_000_000_900_000_000)
+
+
+def fee_cycle_subsecond(s):
+    """C13 with block times that carry nanoseconds: the origin is stored in whole seconds (rounded down), so inside the
+    second of the week mark less than a week may have elapsed: instantiated at x.9 s, attempts at +604799.2 s (refused),
+    +604800.0 s (a whole week, the open instant), +604800.2 s (accepted)."""
+    listing(s, "usr0", 1, [["ujunox", 1000], ["uusdcx", 1000]], G(n=[["ujunox", 2000], ["uusdcx", 2000]]), secs=1209600)
+    bucket(s, "usr1", 1, [["uusdcx", 2000], ["ujunox", 2000]])
+    adv(s, 604799, 200_000_000)
+    s.do(E("usr2", {"k": "fee_cycle"}), "valid")     # 604799.2 s elapsed, though the clock's second is already origin+604800: refused
+    buy(s, "usr1", 1, 1)                              # still charged in JUNO
+    adv(s, 0, 800_000_000)
+    s.do(E("usr2", {"k": "fee_cycle"}), "valid")     # exactly a week
+    adv(s, 0, 200_000_000)
+    s.do(E("usr3", {"k": "fee_cycle"}), "valid")     # accepted (unless the previous one was)
+    adv(s, 604799, 900_000_000)
+    s.do(E("usr3", {"k": "fee_cycle"}), "valid")     # less than a week after the switch at x.1 / x.3 s: refused
+    adv(s, 1, 0)
+    s.do(E("usr4", {"k": "fee_cycle"}), "valid")
 
 
 def registry_rules(s):
@@ -815,12 +849,22 @@ def hostile_freeze(s):
 
 def big_amounts_cfg():
     # per-denomination supplies stay below 2^128 (cfg_ok)
-    return world.default_cfg(rich=[("usr0", "ujunox", 2 ** 126), ("usr1", "ujunox", 2 ** 127 - 1), ("usr0", "uatom", 2 ** 128 - 1 - 5 * 10 ** 15)])
+    return world.default_cfg(rich=[("usr0", "ujunox", 2 ** 126 + 2 ** 125), ("usr1", "ujunox", 2 ** 127 - 1), ("usr0", "uatom", 2 ** 128 - 1 - 5 * 10 ** 15)])
 
 
 def big_amounts(s):
-    """C17 / C12: amounts near 2^128 through real purchases; Uint128 overflow on a top-up."""
+    """C17 / C12 / C06 / C02: amounts near 2^128 through real purchases (fee and royalty on them); Uint128 overflow on a top-up."""
     a = 2 ** 127 - 1
+    reg(s, COLL1, 300, "usr5")
+    reg(s, COLL2, 10, "usr4")
+    # royalties of 3 % and 0.1 % on 2^126 (amount * bps exceeds 2^128): paid by the bucket side for the listing's NFTs
+    nft_send(s, "usr1", COLL1, "2", {"k": "create_listing_cw721", "id": 9, "ask": G(n=[["ujunox", 2 ** 126]]), "wl": None})
+    nft_send(s, "usr1", COLL2, "2", {"k": "add_to_listing_cw721", "id": 9})
+    s.do(E("usr1", {"k": "finalize", "id": 9, "secs": 600}), "valid")
+    bucket(s, "usr0", 9, [["ujunox", 2 ** 126]])
+    buy(s, "usr0", 9, 9)
+    s.do(E("usr1", {"k": "remove_bucket", "id": 9}), "valid")
+    s.do(E("usr0", {"k": "withdraw_purchased", "id": 9}), "valid")
     listing(s, "usr0", 1, [["ujunox", 2 ** 125], ["uatom", 2 ** 128 - 1 - 5 * 10 ** 15]], G(n=[["ujunox", a]]))
     bucket(s, "usr1", 1, [["ujunox", a]])
     buy(s, "usr1", 1, 1)
@@ -886,6 +930,7 @@ SCRIPTS = {
     "hostile_freeze": (world.default_cfg, hostile_freeze, ("no_drain",)),
     "hostile_recreate": (world.default_cfg, hostile_recreate, ()),
     "hook_edge_inputs": (world.default_cfg, hook_edge_inputs, ()),
+    "fee_cycle_subsecond": (fee_cycle_subsecond_cfg, fee_cycle_subsecond, ()),
     "reentrant_withdrawal": (world.default_cfg, reentrant_withdrawal, ("reentrant",)),
     "reentrant_royalty": (world.default_cfg, reentrant_royalty, ("reentrant",)),
     "reentrant_in_flight": (world.default_cfg, reentrant_in_flight, ("reentrant",)),
